@@ -12,15 +12,22 @@ Direct oracle (the property itself, written against the statement, not the model
     `delta -n` and `delta -s`; every output row is matched to the hunk line whose unique token it
     starts with and must show exactly that line's old/new number; rows that start no line
     (continuation rows, the empty half of an unpaired row) must show none; the hunk-header row must
-    show the new-file start and the path of the file.
+    show the new-file start and the path of the file;
+  * the same on plain `diff -u` / `diff -ru` / concatenated plain-diff streams whose hunks contain marker
+    look-alike bodies (`--- x` = removed line `-- x`, `+++ x` = added line `++ x`), most of them after
+    several added lines (`gen_plain`): there the numbering depends on delta telling such a body from the
+    `--- file` header of the next section (the minus-line counter of `handle_hunk_line`).
+Correspondence for that code: the same plain streams through the real state machine (hook op
+`machine.run`) and the machine model `drv_machine` (`machine.run:plain-diff`); its proof tie is
+`Generated/HunkCounter.lean` + `C05.minus_counter_arms_match_source`.
 """
 import itertools
 import re
 
 from ..core import hx, unhx, unhxs, parallel_map
 
-DRIVERS = ["drv_linenum"]
-GENERATED = ["LineNum"]
+DRIVERS = ["drv_linenum", "drv_machine"]
+GENERATED = ["LineNum", "HunkCounter", "Handlers", "Markers"]
 
 ANSI = re.compile(r"\x1b\[[0-9;?]*[A-Za-z]|\x1b\]8;[^\x1b\x07]*(?:\x1b\\|\x07)")
 USIZE_MAX = 2 ** 64 - 1
@@ -932,12 +939,125 @@ def gen_diff(rng, blank_ctx=False, wide=True, colour=0.0):
     return diff, files, control
 
 
+# plain `diff -u` / `diff -ru` streams (no `diff --git` line). Here a removed line whose text starts with
+# `-- ` is written `--- …` and an added line `++ …` is written `+++ …`: delta tells them from the
+# `--- file` / `+++ file` header of the next section by counting the old-file lines of the hunk.
+PLAIN_PATHS = ["db/schema.sql", "src/init.lua", "Main.hs", "pkg/body.adb", "README.md", "mail/signature.txt", "a b/with space.sql",
+               "lib/日本.lua", "x"]
+STAMPS = ["\t2024-03-01 10:00:00.000000000 +0000", "\t2024-03-02 10:00:00.123456789 +0100", "\tFri Mar  1 10:00:00 2024", ""]
+# what follows the look-alike marker in the text of the line (after it: the line's token)
+MINUS_LOOKALIKE = ["-- ", "-- ", "-- ", "--  ", "-- a/", "-- old/"]      # input line `--- …`
+PLUS_LOOKALIKE = ["++ ", "++ ", "++  ", "++ b/", "++ new/"]                # input line `+++ …`
+NEAR_MISS = {"-": ["--", "-", "--- ", "-@@ "], "+": ["++", "+", "+++ ", "+@@ "], " ": ["-- ", "++ ", "--- ", "@@ -1 +1 @@ "]}
+
+
+def gen_plain(rng, wide=True):
+    """A plain `diff -u` (one comparison), `diff -ru` (command line before each section, `Only in` lines)
+    or concatenated-plain-diffs stream with the truth about it. Hunks contain marker look-alike bodies
+    (`--- x` removed lines, `+++ x` added lines), many of them after several added lines, i.e. at a
+    point where fewer old-file lines are still to come than added lines have been seen."""
+    style = rng.choice(["u", "u", "ru", "ru", "ru-N", "concat"])
+    nfiles = 1 if (style == "u" and rng.random() < 0.5) else rng.randint(2, 3)
+    files, text = [], []
+    lookalike = False
+    after_adds = False
+    for fi, rel in enumerate(rng.sample(PLAIN_PATHS, nfiles)):
+        if not wide and not rel.isascii():
+            rel = "plain.txt"
+        stamp = rng.choice(STAMPS)
+        if " " in rel and not stamp:
+            stamp = STAMPS[0]          # a name with a space is only delimited by the TAB of the time stamp
+        if style.startswith("ru"):
+            old, new = "old/" + rel, "new/" + rel
+            if fi and rng.random() < 0.3:
+                text.append(f"Only in {rng.choice(['old', 'new'])}/{rng.choice(['db', 'src', 'doc'])}: {rng.choice(['gone.txt', 'fresh.lua'])}")
+            text.append(rng.choice(["diff -ru", "diff -ru", "diff -r -u", "diff -u -r", "diff -U3 -r", "diff -urN"]) + f" {old} {new}")
+        elif style == "u":
+            old, new = (rel + ".orig", rel) if rng.random() < 0.5 else ("a/" + rel, "b/" + rel)
+        else:
+            old, new = rng.choice([("a/" + rel, "b/" + rel), (rel, rel), ("v1/" + rel, "v2/" + rel)])
+        mode = "mod"
+        if style == "ru-N" and rng.random() < 0.4:
+            mode = rng.choice(["add", "del"])
+        text += [f"--- {old}{stamp}", f"+++ {new}{stamp}"]
+        hunks = []
+        for _ in range(rng.randint(1, 3)):
+            a, c = gen_start(rng), gen_start(rng)
+            kinds = []          # (kind, look-alike)
+            if mode == "add":
+                a = 0
+                kinds = [("+", rng.random() < 0.3) for _ in range(rng.randint(1, 6))]
+            elif mode == "del":
+                c = 0
+                kinds = [("-", rng.random() < 0.3) for _ in range(rng.randint(1, 6))]
+            elif rng.random() < 0.6:
+                # the shape that needs the counter to count old-file lines only: unchanged lines, then
+                # several added lines, then (after 0-2 more lines) a removed line `-- x`, then a few
+                # more old-file lines
+                kinds += [(" ", False)] * rng.randint(0, 2)
+                kinds += [("-", rng.random() < 0.2)] * rng.randint(0, 1)
+                kinds += [("+", rng.random() < 0.2) for _ in range(rng.randint(1, 9))]
+                kinds += [(" ", False)] * rng.randint(0, 2)
+                kinds += [("-", True)] * rng.randint(1, 2)
+                kinds += [("+", rng.random() < 0.5)] * rng.randint(0, 2)
+                kinds += [(rng.choice(" -"), rng.random() < 0.2) for _ in range(rng.randint(0, 4))]
+                after_adds = True
+            else:
+                for _ in range(rng.randint(1, 5)):
+                    if rng.random() < 0.4:
+                        kinds += [(" ", False)] * rng.randint(1, 3)
+                    else:
+                        kinds += [("-", rng.random() < 0.25) for _ in range(rng.randint(0, 4))]
+                        kinds += [("+", rng.random() < 0.25) for _ in range(rng.randint(0, 4))]
+                if not kinds:
+                    kinds = [(" ", False)]
+            nb = sum(1 for k, _ in kinds if k in "- ")
+            nd = sum(1 for k, _ in kinds if k in "+ ")
+            co = f"-{a}" + ("" if (nb == 1 and rng.random() < 0.7) else f",{nb}") + f" +{c}" + ("" if (nd == 1 and rng.random() < 0.7) else f",{nd}")
+            frag = rng.choice(FRAGS) if rng.random() < 0.3 else ""      # `diff -up`
+            header = f"@@ {co} @@{frag}"
+            text.append(header)
+            oa, oc = a, c
+            truth = []
+            last_old = max((i for i, (k, _) in enumerate(kinds) if k in "- "), default=-1)
+            last_new = max((i for i, (k, _) in enumerate(kinds) if k in "+ "), default=-1)
+            nonl = rng.random() < 0.15
+            for i, (k, look) in enumerate(kinds):
+                nwords = rng.choice([1, 2, 3, 6, 12, 25])
+                words = [w for w in (rng.choice(WORDS) for _ in range(nwords)) if wide or w.isascii()]
+                pre = ""
+                if look and k == "-":
+                    pre, lookalike = rng.choice(MINUS_LOOKALIKE), True
+                elif look and k == "+":
+                    pre, lookalike = rng.choice(PLUS_LOOKALIKE), True
+                elif rng.random() < 0.08:
+                    pre = rng.choice(NEAR_MISS[k])
+                if k == "-":
+                    tok = f"o{oa}_"
+                    truth.append(("-", oa, None, pre + tok)); oa += 1
+                elif k == "+":
+                    tok = f"n{oc}_"
+                    truth.append(("+", None, oc, pre + tok)); oc += 1
+                else:
+                    tok = f"k{oa}_{oc}_"
+                    truth.append((" ", oa, oc, pre + tok)); oa += 1; oc += 1
+                text.append(k + pre + tok + " " + " ".join(words))
+                if nonl and ((i == last_old and k == "-") or (i == last_new and i == len(kinds) - 1)):
+                    text.append("\\ No newline at end of file")
+            hunks.append(dict(header=header, a=a, c=c, nb=nb, nd=nd, frag=frag, truth=truth))
+        files.append(dict(old=old, new=new, shown=new, hunks=hunks))
+    diff = "\n".join(text) + "\n"
+    return diff, files, dict(style=style, lookalike=lookalike, after_adds=after_adds)
+
+
 def strip_ansi(b):
     return ANSI.sub("", b.decode("utf-8", "replace"))
 
 
-TOK = re.compile(r"^ ?[-+ ]?([onk])(\d+)_(?:(\d+)_)?")
-TOKP = re.compile(r"^ ?[-+ ]?[onk]\d")
+# a line's token at the start of a row's text: after the marker column (when markers are kept) and after
+# the dashes / pluses of a marker look-alike text (`-- o12_ …`, `++ n7_ …`, near misses `--o12_ …`)
+TOK = re.compile(r"^ ?[-+ ]?(?:-{1,3} {0,2}(?:a/|old/)?|\+{1,3} {0,2}(?:b/|new/)?|-?@@ (?:-1 \+1 @@ )?|\+@@ )?([onk])(\d+)_(?:(\d+)_)?")
+TOKP = re.compile(r"^ ?[-+ ]?(?:-{1,3} {0,2}(?:a/|old/)?|\+{1,3} {0,2}(?:b/|new/)?|-?@@ (?:-1 \+1 @@ )?|\+@@ )?[onk]\d")
 
 
 def check_binary_case(ctx, case):
@@ -1060,6 +1180,11 @@ def check_binary_case(ctx, case):
                 if any(TOKP.match(x) and not (y and (y.group(1) != "k" or y.group(3))) for x, y in ((lcont, tl), (rcont, tr))):
                     res["skip"] = "a line token is cut off by the panel edge"
                     return res
+                if case.get("plain") and any(not y and re.match(r"^ ?[-+ ]?[-+@]", x) for x, y in ((lcont, tl), (rcont, tr))):
+                    # a marker look-alike / near-miss prefix (`-- `, `++ `, `@@ -1 +1 @@ `, …) is in view but the
+                    # token behind it is not: the panel is only a few columns wide
+                    res["skip"] = "a line token is cut off by the panel edge"
+                    return res
                 # what each panel must show, from the line that starts in it (None = blank)
                 exp_l, exp_r = (None, None), (None, None)
                 if tl and tl.group(1) == "o":
@@ -1134,10 +1259,35 @@ def make_binary_cases(ctx, count):
     return cases
 
 
+def make_plain_cases(ctx, count):
+    """plain `diff -u` / `diff -ru` streams in the unified and the side-by-side view"""
+    rng = ctx.rng
+    cases = []
+    for i in range(count):
+        diff, files, info = gen_plain(rng, wide=rng.random() < 0.4)
+        base = ["--no-gitconfig", "--paging=never", "--hunk-header-style=file line-number", "--hunk-header-decoration-style=none",
+                "--hunk-label=HUNK@"]
+        lbs = rng.choice([32, 32, 32, 0, 1, 2, 3])
+        if lbs != 32:
+            base.append(f"--line-buffer-size={lbs}")
+        for sbs in (False, True):
+            custom = rng.random() < 0.4
+            fl, fr = (gen_fmt(rng, "nm"), gen_fmt(rng, "np")) if custom else DEFAULT_FMTS[sbs]
+            width = rng.choice([100, 120, 160, 200, 400]) if sbs else rng.choice([60, 80, 200])
+            args = list(base) + ([f"--width={width}", "-s", "--wrap-max-lines=" + rng.choice(["unlimited", "2", "4", "0"])] if sbs else ["-n", f"--width={width}"])
+            if custom:
+                args += ["--line-numbers-left-format=" + fl.text(), "--line-numbers-right-format=" + fr.text()]
+            if rng.random() < 0.2:
+                args.append("--keep-plus-minus-markers")
+            cases.append(dict(id=10 ** 6 + i, args=args, diff=diff, files=files, sbs=sbs, fl=fl, fr=fr, width=width, blank=False, lbs=lbs,
+                              control=None, rawmode=None, plain=info))
+    return cases
+
+
 def case_replay(case):
     return dict(kind="binary", args=case["args"], diff=case["diff"], sbs=case["sbs"], width=case["width"],
                 fl=case["fl"].parts, fr=case["fr"].parts, files=case["files"], blank=case["blank"], lbs=case["lbs"],
-                control=case.get("control"))
+                control=case.get("control"), plain=case.get("plain"))
 
 
 def eval_binary(ctx, rep, cases, mdl):
@@ -1152,6 +1302,13 @@ def eval_binary(ctx, rep, cases, mdl):
         rep.count(f"binary:{view}")
         if case.get("rawmode"):
             rep.count(f"binary:raw-lines:{case['rawmode']}:{view}")
+        plain = case.get("plain")
+        if plain:
+            rep.count(f"binary:plain-diff:{plain['style']}:{view}")
+            if plain["lookalike"]:
+                rep.count(f"binary:plain-diff:marker-lookalike-body:{view}")
+            if plain["after_adds"]:
+                rep.count(f"binary:plain-diff:lookalike-after-added-lines:{view}")
         lk = [q[1] for q in case["fl"].parts if q[0] == "ph"]
         rk = [q[1] for q in case["fr"].parts if q[0] == "ph"]
         for cond, name in (("np" in lk, "np-in-left-format"), ("nm" in rk, "nm-in-right-format"),
@@ -1170,6 +1327,11 @@ def eval_binary(ctx, rep, cases, mdl):
             continue
         if res["fail"]:
             sig, what = res["fail"]
+            if plain and CROSS_SIG not in sig:
+                # plain `diff -u` input; with bodies that look like `--- ` / `+++ ` header lines when it has them
+                # (the cross-placeholder finding does not depend on the kind of input: its signature stays)
+                sig = "plain-diff:" + ("marker-lookalike-body:" if plain["lookalike"] else "") + sig
+                what = f"plain diff input (style {plain['style']}): " + what
             if case["blank"] and case.get("control"):
                 # is the failure caused by the empty context lines alone? control run: the same diff
                 # with those lines written the ordinary way
@@ -1214,6 +1376,7 @@ def eval_binary(ctx, rep, cases, mdl):
 def run_binary(ctx, rep, mdl):
     cases = make_binary_cases(ctx, ctx.n(300, 6000))
     eval_binary(ctx, rep, cases, mdl)
+    eval_binary(ctx, rep, make_plain_cases(ctx, ctx.n(120, 2500)), mdl)
     # panics in the numbering code (reported here, owned by C03): overflow of the counters
     probes = [("@@ -18446744073709551615,1 +1 @@", "-a\n+b\n"), ("@@ -18446744073709551615,0 +18446744073709551614,1 @@", "+a\n+b\n")]
     for hd, body in probes:
@@ -1289,6 +1452,34 @@ def run_combined(ctx, rep):
     eval_combined(ctx, rep, [combined_case(ctx.rng) for _ in range(ctx.n(60, 1500))])
 
 
+# ------------------------------------------------------------------ plain diffs through the state machine (hook level)
+
+def run_plain_machine(ctx, rep):
+    """The code the minus-line counter lives in (`handle_hunk_line`, `handle_hunk_header_line`,
+    `handle_diff_header_minus_line`) against the machine model (`DeltaModel/Machine.lean`: `hunkLinePush`,
+    `m.counter`, `minusLineTest`), on plain-diff streams with marker look-alike bodies: the same lines to the
+    real state machine (existing hook op `machine.run`) and to the model driver `drv_machine`; states,
+    buffered lines and rows are compared line by line (vlib/machine.py)."""
+    from .. import machine as M
+    rng = ctx.rng
+    cases, meta = [], []
+    for _ in range(ctx.n(40, 600)):
+        diff, files, info = gen_plain(rng, wide=rng.random() < 0.3)
+        cfg = M.gen_cfg(rng, color_only=False)
+        cases.append((cfg, [l.encode("utf-8") for l in diff.split("\n")[:-1]]))
+        meta.append((cfg, diff, info))
+    res = M.observe(ctx, cases, model=(ctx.model("drv_machine") if ctx.drivers_ok else None))
+    for (cfg, diff, info), (impl, model) in zip(meta, res):
+        case = dict(kind="plain-machine", args=cfg.args(), model_cfg=cfg.d, input=diff, plain=info)
+        rep.case(key=("plain-machine", cfg.key(), diff), nontrivial=info["lookalike"], sample=None)
+        rep.count("plain-machine:" + info["style"])
+        if not impl.ok:
+            rep.count("plain-machine:impl-" + ("panic" if impl.panic else "error"))
+            continue
+        dis = M.compare(cfg, impl, model)
+        rep.corr_case("machine.run:plain-diff", not dis, dict(case, disagreement=dis[:2]))
+
+
 # ------------------------------------------------------------------ entry points
 
 def run(ctx, rep):
@@ -1296,7 +1487,10 @@ def run(ctx, rep):
                 "machine: random state/panel sequences per random format config; sbs_block: every alignment of every shape <=4x<=4 with wrap counts "
                 "<=3 (exhaustive for small shapes, sampled above) under several format/width configs; blocks: random hunks through a real Painter in "
                 "both views; binary: random multi-file multi-hunk git diffs (starts 0..10^13, omitted counts, zero-length sides, add/delete/rename, "
-                "wide characters, line-buffer-size 0..3/32) in both views with random number formats. Non-trivial = at least two rows/lines/hunks; "
+                "wide characters, line-buffer-size 0..3/32) in both views with random number formats; plain `diff -u` / `diff -ru` / concatenated "
+                "plain diffs (no `diff --git` line; time stamps, `Only in` lines, -N added/deleted files) whose hunks contain marker look-alike "
+                "bodies (removed `-- x` = input `--- x`, added `++ x` = input `+++ x`, near misses), most of them after several added lines, "
+                "in both views. Non-trivial = at least two rows/lines/hunks; "
                 "distinct by full input.")
     rep.extra_trusted += ["Python gutter decoder and true-number generator in vlib/props/c05.py (direct oracle)",
                           "f64 log10 in initialize_hunk modelled as digit count (exact below 10^15)",
@@ -1315,6 +1509,7 @@ def run(ctx, rep):
     run_sbs_blocks(ctx, rep, hook, mdl)
     run_blocks(ctx, rep, hook, mdl)
     run_binary(ctx, rep, mdl)
+    run_plain_machine(ctx, rep)
     run_combined(ctx, rep)
     rep.notes["hook_restarts"] = hook.restarts
 
@@ -1326,13 +1521,21 @@ def replay(ctx, rep, obj):
     if kind == "binary":
         c = dict(id=0, args=case["args"], diff=case["diff"], files=case["files"], sbs=case["sbs"], width=case["width"],
                  fl=Fmt([tuple(p) for p in case["fl"]]), fr=Fmt([tuple(p) for p in case["fr"]]), blank=case.get("blank", False), lbs=case.get("lbs", 32),
-                 control=case.get("control"))
+                 control=case.get("control"), plain=case.get("plain"))
         for f in c["files"]:
             for h in f["hunks"]:
                 h["truth"] = [tuple(t) for t in h["truth"]]
         eval_binary(ctx, rep, [c], mdl)
     elif kind == "combined-first-number":
         eval_combined(ctx, rep, [case])
+    elif kind == "plain-machine":
+        from .. import machine as M
+        cfg = M.VCfg(**case["model_cfg"])
+        impl, model = M.observe(ctx, [(cfg, [l.encode("utf-8") for l in case["input"].split("\n")[:-1]])],
+                                model=(ctx.model("drv_machine") if ctx.drivers_ok else None))[0]
+        dis = M.compare(cfg, impl, model) if impl.ok else ["implementation: " + impl.resp[:100]]
+        rep.case(key=("replay", case["input"]), nontrivial=True, sample=dict(disagreement=dis[:2]))
+        rep.corr_case("machine.run:plain-diff", not dis, dict(case, disagreement=dis[:2]))
     elif kind in ("hook-sbs", "hook-blocks", "hook", "hook-machine"):
         hook = ctx.hook()
         reqs = (["cfg " + " ".join(hx(x) for x in case["cfg"])] if "cfg" in case else []) + ([case["req"]] if "req" in case else case.get("reqs", []))
